@@ -336,7 +336,10 @@ func (wk *worker) runCase(c *Case) (res CaseResult) {
 	if wk.model != nil && w.execs > 1 && !hookMode {
 		count("model-not-consulted(several executions share one apiRequest)")
 	}
-	if wk.model != nil && (w.execs <= 1 || hookMode) {
+	if wk.model != nil && !hookMode && w.inferenceUnsafe {
+		count("model-not-consulted(edges fetched more than once for one connection: beyond the fallback inference)")
+	}
+	if wk.model != nil && (hookMode || (w.execs <= 1 && !w.inferenceUnsafe)) {
 		res.CorrRan = true
 		s := w.synthesize()
 		line := "(run fixed " + strings.Join(s.labels, " ") + ")"
